@@ -77,6 +77,48 @@ Theorem C09_kernel_boundary : forall c ploidy n : Z, 0 <= c <= k_denom ploidy n 
 Proof. exact kernel_boundary. Qed.
 Print Assumptions C09_kernel_boundary.
 
+(** The remaining statistics and the three codings, as the CURRENT source writes them (both classes), are the model's:
+    per-taxon frequency (1.0/ploidy) * count, genotype frequency (1.0/ntaxa) * count, mean expected heterozygosity
+    (ploidy/nvrnt) * sum p(1-p) (unphased: dot(p, 1-p); phased: sum(p*(1-p))), {-1,0,1} = dosage - 1, and {-1,m,1} =
+    shift by one, then the entries equal to 0 replaced by the marker mean. *)
+Theorem C09_kernel_is_model_freqs_codings :
+  (forall ploidy mat, map (map (fun x => k_tafreq (k_tafreq_recip (f_of_Z ploidy)) (f_of_Z x))) mat = tafreq_f ploidy mat) /\
+  (forall ploidy mat, map (map (fun x => k_ph_tafreq (k_ph_tafreq_recip (f_of_Z ploidy)) (f_of_Z x))) mat = tafreq_f ploidy mat) /\
+  (forall (ploidy p : nat) mat,
+     map (map (fun c => k_gtfreq (k_gtfreq_recip (f_of_Z (ntaxa mat))) (f_of_Z c))) (gtcount ploidy p mat) = gtfreq_f ploidy p mat) /\
+  (forall (ploidy p : nat) mat,
+     map (map (fun c => k_ph_gtfreq (k_ph_gtfreq_recip (f_of_Z (ntaxa mat))) (f_of_Z c))) (gtcount ploidy p mat) = gtfreq_f ploidy p mat) /\
+  (forall ploidy p mat, Qmult (k_meh_scale (Qmake ploidy 1) (Qmake (Z.of_nat p) 1))
+                              (sumQ (map (fun x => Qmult x (k_meh_compl x)) (afreq_q ploidy p mat))) = meh_q ploidy p mat) /\
+  (forall ploidy p mat, Qmult (k_ph_meh_scale (Qmake ploidy 1) (Qmake (Z.of_nat p) 1))
+                              (sumQ (map k_ph_meh_term (afreq_q ploidy p mat))) = meh_q ploidy p mat) /\
+  (forall mat, map (map k_fmt_m101) mat = fmt_m101 mat) /\ (forall mat, map (map k_ph_fmt_m101) mat = fmt_m101 mat) /\
+  (forall p mat, fmt_m1m1_gen k_fmt_shift k_fmt_mask p mat = fmt_m1m1 p mat) /\
+  (forall p mat, fmt_m1m1_gen k_ph_fmt_shift k_ph_fmt_mask p mat = fmt_m1m1 p mat).
+Proof.
+  exact (conj k_tafreq_model (conj k_ph_tafreq_model (conj k_gtfreq_model (conj k_ph_gtfreq_model (conj k_meh_model
+        (conj k_ph_meh_model (conj k_fmt_m101_model (conj k_ph_fmt_m101_model (conj k_fmt_m1m1_model k_ph_fmt_m1m1_model))))))))).
+Qed.
+Print Assumptions C09_kernel_is_model_freqs_codings.
+
+(** the coding expressions of the source, for every integer dosage x: {-1,0,1} gives x-1 in both classes, the float shift of
+    the {-1,m,1} branch is that same value, the entries it replaces by the marker mean are exactly the heterozygotes (x = 1),
+    and a diploid dosage is coded inside {-1,0,1} *)
+Theorem C09_kernel_codings : forall x : Z,
+  k_fmt_m101 x = x - 1 /\ k_ph_fmt_m101 x = x - 1 /\ k_fmt_shift x = k_fmt_m101 x /\ k_ph_fmt_shift x = k_ph_fmt_m101 x
+  /\ k_fmt_mask (k_fmt_shift x) = (x =? 1) /\ k_ph_fmt_mask (k_ph_fmt_shift x) = (x =? 1)
+  /\ (0 <= x <= 2 -> -1 <= k_fmt_m101 x <= 1 /\ -1 <= k_ph_fmt_m101 x <= 1).
+Proof. exact kernel_codings. Qed.
+Print Assumptions C09_kernel_codings.
+
+(** non-vacuity of the coding theorem: a heterozygote is selected by the mask, a homozygote is not, and on the 3x3 matrix
+    below the {-1,m,1} coding built from the generated kernels puts the marker mean (2/3) at the heterozygote *)
+Example C09_kernel_codings_hyps_satisfiable :
+  0 <= 1 <= 2 /\ k_fmt_mask (k_fmt_shift 1) = true /\ k_fmt_mask (k_fmt_shift 2) = false /\
+  qll_eqb (fmt_m1m1_gen k_fmt_shift k_fmt_mask 3 [[0;1;2];[2;2;2];[0;2;0]])
+          [[-1 # 1; 2 # 3; 1 # 1]; [1 # 1; 1 # 1; 1 # 1]; [-1 # 1; 1 # 1; -1 # 1]]%Q = true.
+Proof. repeat split; try lia; vm_compute; reflexivity. Qed.
+
 (** non-vacuity: a concrete 3-taxa, 3-locus diploid matrix meets the hypotheses *)
 Example C09_hyps_satisfiable : shape_ok 3 3 [[0;1;2];[0;2;2];[0;0;2]] /\ dosages_ok 2 [[0;1;2];[0;2;2];[0;0;2]]
   /\ phases_ok 2 2 [[[0;1];[1;1]];[[0;0];[1;1]]] /\ alleles01 [[[0;1];[1;1]];[[0;0];[1;1]]].
